@@ -100,7 +100,8 @@ static int imm_tok(struct instr *instr_buffer, char *imme) {
   instr_buffer->imm = true;
   int base = RADIX_10;
   imme = strtok_r(imme, " ", &saved_saved);
-  if (imme[1] == 'x' || imme[2] == 'x') {
+  // (a one-character immediate has no third character to look at)
+  if (imme[1] == 'x' || (imme[1] != '\0' && imme[2] == 'x')) {
     base = RADIX_16;
     if ((instr_buffer->assembly_opt & SMART_MOV_IMM) &&
         imme_str_len < STR_HEX_64)
